@@ -47,7 +47,7 @@ def call(sf, kind, x, flags):
 
 
 def run(ctx):
-    sf = env.load_selfies()
+    sf = env.varied(env.load_selfies(), ctx)
     rng = ctx.rng
     quick = ctx.tier == "quick"
     zyg = [Zygote(h) for h in range(5)]
